@@ -1,13 +1,87 @@
-/* h_c17cli.c -- the command line of the real client: main() of src/iodine.c, see h_mainargs.inc */
+/* h_c17cli.c -- the command line of the real client: main() of src/iodine.c, see h_mainargs.inc.
+ * Everything main() hands to client.c is recorded by link-time wrappers (which then call the real functions); the run ends
+ * when main() calls client_handshake(). */
 #include "hlib.h"
 #define main iodine_main
 #include "iodine.c"	/* found through -I <snapshot>/src */
 #undef main
 #define MAIN_FN iodine_main
 #define MAIN_NAME "iodine"
+#define MAIN_PASS_ENV PASSWORD_ENV_VAR
+#define MAIN_CONTINUES_PAST_TUN
+
 #include "h_mainargs.inc"
+
+static struct {
+	int have_topdomain, have_password, maxlen, selecttimeout, lazy, tun_reached;
+	char topdomain[1100];
+	unsigned char password[33];
+	char qtype[64], downenc[64];
+	int qtype_set, downenc_set, ns_family;
+} rec;
+
+static void ma_reached_tun(void) { rec.tun_reached = 1; }
+
+void __real_client_set_topdomain(const char *cp);
+void __wrap_client_set_topdomain(const char *cp);
+void __wrap_client_set_topdomain(const char *cp)
+{
+	rec.have_topdomain = 1;
+	snprintf(rec.topdomain, sizeof(rec.topdomain), "%s", cp);
+	__real_client_set_topdomain(cp);
+}
+void __real_client_set_password(const char *cp);
+void __wrap_client_set_password(const char *cp);
+void __wrap_client_set_password(const char *cp)
+{
+	rec.have_password = 1;
+	memcpy(rec.password, cp, 33);	/* login_calculate reads 32 bytes of this buffer, whatever the string length */
+	__real_client_set_password(cp);
+}
+void __real_client_set_hostname_maxlen(int i);
+void __wrap_client_set_hostname_maxlen(int i);
+void __wrap_client_set_hostname_maxlen(int i) { rec.maxlen = i; __real_client_set_hostname_maxlen(i); }
+void __real_client_set_selecttimeout(int i);
+void __wrap_client_set_selecttimeout(int i);
+void __wrap_client_set_selecttimeout(int i) { rec.selecttimeout = i; __real_client_set_selecttimeout(i); }
+void __real_client_set_lazymode(int i);
+void __wrap_client_set_lazymode(int i);
+void __wrap_client_set_lazymode(int i) { rec.lazy = i; __real_client_set_lazymode(i); }
+int __real_client_set_qtype(char *s);
+int __wrap_client_set_qtype(char *s);
+int __wrap_client_set_qtype(char *s) { rec.qtype_set = 1; snprintf(rec.qtype, sizeof(rec.qtype), "%s", s); return __real_client_set_qtype(s); }
+void __real_client_set_downenc(char *s);
+void __wrap_client_set_downenc(char *s);
+void __wrap_client_set_downenc(char *s) { rec.downenc_set = 1; snprintf(rec.downenc, sizeof(rec.downenc), "%s", s); __real_client_set_downenc(s); }
+void __real_client_set_nameserver(struct sockaddr_storage *addr, int addrlen);
+void __wrap_client_set_nameserver(struct sockaddr_storage *addr, int addrlen);
+void __wrap_client_set_nameserver(struct sockaddr_storage *addr, int addrlen) { rec.ns_family = addr->ss_family; __real_client_set_nameserver(addr, addrlen); }
+void __wrap_client_init(void);
+void __real_client_init(void);
+void __wrap_client_init(void) { memset(&rec, 0, sizeof(rec)); rec.maxlen = -1; rec.selecttimeout = -1; rec.lazy = -1; __real_client_init(); }
+
+int __wrap_open_dns_from_host(char *host, int port, int addr_family, int flags);
+int __wrap_open_dns_from_host(char *host, int port, int addr_family, int flags) { (void)host; (void)port; (void)addr_family; (void)flags; return 20; }
+
+static int hs_raw, hs_autofrag, hs_fragsize;
+int __wrap_client_handshake(int dns_fd, int raw_mode, int autodetect_frag_size, int fragsize);
+int __wrap_client_handshake(int dns_fd, int raw_mode, int autodetect_frag_size, int fragsize)
+{
+	(void)dns_fd;
+	hs_raw = raw_mode; hs_autofrag = autodetect_frag_size; hs_fragsize = fragsize;
+	ma_accept = 1;
+	longjmp(ma_bail, 1);
+}
 
 static void ma_details(void)
 {
-	printf("client");
+	printf("client topdomain=");
+	if (rec.have_topdomain) puthex((unsigned char *)rec.topdomain, strlen(rec.topdomain)); else printf("UNSET");
+	printf(" password=");
+	if (rec.have_password) puthex(rec.password, 33); else printf("UNSET");
+	printf(" maxlen=%d selecttimeout=%d lazy=%d qtype=", rec.maxlen, rec.selecttimeout, rec.lazy);
+	if (rec.qtype_set) puthex((unsigned char *)rec.qtype, strlen(rec.qtype)); else printf("UNSET");
+	printf(" downenc=");
+	if (rec.downenc_set) puthex((unsigned char *)rec.downenc, strlen(rec.downenc)); else printf("UNSET");
+	printf(" raw=%d autofrag=%d fragsize=%d nsfam=%d tun=%d", hs_raw, hs_autofrag, hs_fragsize, rec.ns_family, rec.tun_reached);
 }
